@@ -17,11 +17,14 @@
    Multisets with repeated elements are outside the domain (open finding D36: the matcher's node-keyed dictionaries
    collapse duplicates); so are FixedKeyDictNodeEdits whose children's initial upper bounds exceed the edit's own
    cost_upper_bound (a computed guard inside initO).  For documents without multisets (dictionary strategy none) the guard
-   is PROVED to pass when the target holds no null leaf, or when every list has the default options (C04_docs_none:
-   unconditional contract); outside these two conditions it is false (C04_guard_refuted; on the real code the edit
-   invalidates itself and diff() raises ValueError: open finding D41).  For mappings under auto / match (MultiSetEdit as a
-   child of a FixedKeyDictNodeEdit cannot come from files; a MultiSetEdit's initial upper bound, the sum of the largest row
-   maxima of its matcher, is not bounded by the sizes of the two nodes) C04_docs stays conditional on the computed guard.
+   is PROVED to pass for ALL well-formed documents on the current source (C04_docs_none_all; it rests on LeafNode.edits
+   capping the cost of a Match of two leaves by the cost of a Replace - the repair of defect D41 - which enters as the
+   translated constant leaf_match_cost_capped, discharged here by reflexivity: reverting the source breaks THIS file).
+   Independently of the cap it passes when the target holds no null leaf or every list has the default options
+   (C04_docs_none); the former counter-example outside both conditions now initialises (C04_guard_witness_repaired).
+   For mappings under auto / match (MultiSetEdit as a child of a FixedKeyDictNodeEdit cannot come from files; a
+   MultiSetEdit's initial upper bound, the sum of the largest row maxima of its matcher, is not bounded by the sizes of the
+   two nodes) C04_docs stays conditional on the computed guard.
    IterativeTighteningSearch (C04_search): the contract for the model of search.py in SearchModel.v (tied to the code by
    C17's trace correspondence), over any finite collection of items whose own bounds are sound and strictly shrink on
    every True (schedules), for all heap tie-break hints.  PossibleEdits delegates bounds()/tighten_bounds() to its search;
@@ -138,26 +141,34 @@ Theorem C04_guard_bound_default_lists : forall orc a b, wf a = true -> wf b = tr
   exists s, initO orc a b = Some s /\ snd (bndU s) <= size a + size b + 4.
 Proof. exact guard_none_default_lists. Qed.
 
-(* ... hence the contract without the computed guard; budget_safe a b = text_slack 0 b || (lists_default a && text_slack 4 b) *)
+(* ... hence the contract without the computed guard, whatever LeafNode.edits charges; budget_safe a b = text_slack 0 b || (lists_default a && text_slack 4 b) *)
 Theorem C04_docs_none : forall orc a b, wf a = true -> wf b = true -> no_mset a = true -> no_mset b = true ->
   is_kvp a = is_kvp b -> budget_safe a b = true ->
   exists s, initO orc a b = Some s /\ Contract (UM (sheight s)) s /\ snd (bndU s) <= size a + size b + 4.
 Proof. exact docs_none_contract. Qed.
 
-(* Outside both conditions the guard is false (open finding D41): {"": ["","","",""]} -> {"": [null,null,null,null]} as
-   FixedKeyDictNodes with allow_list_edits = False.  The key/value pair edit costs exactly 16 (four Match("" -> null) of cost
-   levenshtein("", "None") = 4) while cost_upper_bound = 7 + 1 + 7 = 15, so the pair is outside the domain of initO; the
-   real EditCollection.bounds() sets valid = False, answers Range() and diff() raises ValueError. *)
-Theorem C04_guard_refuted :
+(* The current source (LeafNode.edits caps the cost of matching two leaves by max(total_size) + 1): no condition on the
+   documents.  `eq_refl` is the proof of  GTgen.EdGen.leaf_match_cost_capped = true  for the constant the translator reads
+   off /repo/graphtage/graphtage.py on every run. *)
+Theorem C04_guard_bound_all : forall orc a b, wf a = true -> wf b = true -> no_mset a = true -> no_mset b = true ->
+  is_kvp a = is_kvp b ->
+  exists s, initO orc a b = Some s /\ snd (bndU s) <= size a + size b + 1.
+Proof. exact (guard_none_capped eq_refl). Qed.
+Theorem C04_docs_none_all : forall orc a b, wf a = true -> wf b = true -> no_mset a = true -> no_mset b = true ->
+  is_kvp a = is_kvp b ->
+  exists s, initO orc a b = Some s /\ Contract (UM (sheight s)) s /\ snd (bndU s) <= size a + size b + 1.
+Proof. exact (docs_none_contract_capped eq_refl). Qed.
+
+(* The former counter-example of the guard (defect D41, repaired): {"": ["","","",""]} -> {"": [null,null,null,null]} as
+   FixedKeyDictNodes with allow_list_edits = False lies outside both document conditions; before the repair the key/value
+   pair edit cost 16 against cost_upper_bound = 7 + 1 + 7 = 15 and diff() raised ValueError; now it initialises. *)
+Theorem C04_guard_witness_repaired :
   wf ex_guard_a = true /\ wf ex_guard_b = true /\ no_mset ex_guard_a = true /\ no_mset ex_guard_b = true /\
-  is_kvp ex_guard_a = is_kvp ex_guard_b /\ null_as_None ex_guard_b = true /\ text_slack 4 ex_guard_b = true /\
+  is_kvp ex_guard_a = is_kvp ex_guard_b /\ null_as_None ex_guard_b = true /\
   budget_safe ex_guard_a ex_guard_b = false /\
   size ex_guard_a + 1 + size ex_guard_b = 15 /\
-  (forall orc, exists s, initO orc (Kvp false ex_estr (Lst false true [ex_estr; ex_estr; ex_estr; ex_estr]))
-                                   (Kvp false ex_estr (Lst false true [ex_null; ex_null; ex_null; ex_null])) = Some s /\
-                         bndU s = (16, 16)) /\
-  (forall orc, initO orc ex_guard_a ex_guard_b = None).
-Proof. exact guard_refuted. Qed.
+  (forall orc, exists s, initO orc ex_guard_a ex_guard_b = Some s /\ Contract (UM (sheight s)) s /\ snd (bndU s) <= 15).
+Proof. exact (guard_witness_repaired eq_refl). Qed.
 
 (* Apple plist documents: PLISTNode(a).edits(PLISTNode(b)) is an EditCollection over [Match(self, node, 0); a.edits(b)] with
    cost_upper_bound = size a + 1 + size b.  initP (MachinePlist.v) = the collection machine over [SConst 0; initO orc a b]
@@ -206,6 +217,8 @@ Print Assumptions C04_docs_trace.
 Print Assumptions C04_guard_bound_no_null.
 Print Assumptions C04_guard_bound_default_lists.
 Print Assumptions C04_docs_none.
-Print Assumptions C04_guard_refuted.
+Print Assumptions C04_guard_bound_all.
+Print Assumptions C04_docs_none_all.
+Print Assumptions C04_guard_witness_repaired.
 Print Assumptions C04_search.
 Print Assumptions C04_plist_root.
